@@ -471,49 +471,80 @@ pub(crate) mod b {
     }
 
     /// C05 completeness / soundness through the real tables (bounded stand-in): drawn boxes become exactly
-    /// one rect of the drawn position, size, rounding and dashing; attaching a stub line prevents it
+    /// one rect of the drawn position, size, rounding (the radius of the drawn corner arcs) and dashing (any
+    /// dashed edge or side); attaching a stub line prevents it
     #[test]
     fn bounded_boxes() {
-        use crate::buffer::{CellBuffer, Span};
-        let (maxw, maxh) = if thorough() { (60usize, 30usize) } else { (9, 5) };
-        let corners: [(&str, [char; 4]); 3] = [("sharp", ['+', '+', '+', '+']), ("round", ['.', '.', '\'', '\'']), ("round2", [',', '.', '`', '\''])];
+        use crate::buffer::{CellBuffer, FragmentBuffer, Span};
+        let (maxw, maxh) = if thorough() { (60usize, 30usize) } else { (7, 4) };
+        // (name, corner characters, inset of the corners relative to the sides)
+        let corners: [(&str, [char; 4], usize); 4] = [
+            ("sharp", ['+', '+', '+', '+'], 0),
+            ("round", ['.', '.', '\'', '\''], 0),
+            ("round2", [',', '.', '`', '\''], 0),
+            ("wide", ['.', '.', '\'', '\''], 1),
+        ];
         let mut n = 0u64;
-        let mut radius_seen: Option<f32> = None;
-        for (style, c) in corners {
-            for edge in ['-', '~'] {
+        for (style, c, inset) in corners {
+            for (top, bottom) in [('-', '-'), ('~', '~'), ('-', '~'), ('~', '-')] {
                 for w in 0..=maxw {
                     for h in 0..=maxh {
                         if style != "sharp" && w == 0 {
                             continue; // two corner characters with no edge between them are not a box
                         }
+                        if inset == 1 && h == 0 {
+                            continue; // the wide style needs a side row
+                        }
                         for (dx, dy) in [(0usize, 0usize), (3, 2), (17, 5)] {
-                            for variant in ["plain", "text", "dashed_side", "dashed_first", "dashed_last", "stub"] {
-                                if variant == "dashed_side" && h < 3 {
+                            for variant in ["plain", "text", "dashed_both", "dashed_left", "dashed_right", "dashed_first", "dashed_last", "stub"] {
+                                if variant.starts_with("dashed") && variant != "dashed_first" && variant != "dashed_last" && h < 3 {
                                     continue;
                                 }
                                 if (variant == "dashed_first" || variant == "dashed_last") && h < 2 {
                                     continue;
                                 }
-                                if variant == "text" && (w < 2 || h < 1) {
+                                if variant == "text" && (w + 2 * inset < 3 || h < 1) {
                                     continue;
                                 }
+                                if variant == "stub" && inset == 1 {
+                                    continue; // with inset corners the appended dashes do not touch the outline
+                                }
+                                if (top, bottom) != ('-', '-') && variant != "plain" {
+                                    continue; // edge dashing is combined with the plain variant only
+                                }
+                                let (left, right) = (dx, dx + w + 1 + 2 * inset);
+                                let mk_edge = |e: char| -> String { std::iter::repeat(e).take(right - left - 1 - 2 * inset).collect() };
                                 let mut rows: Vec<String> = vec![];
-                                let e: String = std::iter::repeat(edge).take(w).collect();
-                                rows.push(format!("{}{}{}{}", " ".repeat(dx), c[0], e, c[1]));
+                                rows.push(format!("{}{}{}{}", " ".repeat(left + inset), c[0], mk_edge(top), c[1]));
                                 for i in 0..h {
-                                    let side = if (variant == "dashed_side" && i == 1) || (variant == "dashed_first" && i == 0)
-                                        || (variant == "dashed_last" && i == h - 1) { ':' } else { '|' };
-                                    let mut inner: String = " ".repeat(w);
+                                    let dashed_row = match variant {
+                                        "dashed_both" | "dashed_left" | "dashed_right" => i == 1,
+                                        "dashed_first" => i == 0,
+                                        "dashed_last" => i == h - 1,
+                                        _ => false,
+                                    };
+                                    let ls = if dashed_row && variant != "dashed_right" { ':' } else { '|' };
+                                    let rs = if dashed_row && variant != "dashed_left" { ':' } else { '|' };
+                                    let mut inner: String = " ".repeat(right - left - 1);
                                     if variant == "text" && i == 0 {
-                                        inner = format!("ab{}", " ".repeat(w - 2));
+                                        inner = format!(" ab{}", " ".repeat(right - left - 1 - 3));
                                     }
-                                    rows.push(format!("{}{}{}{}", " ".repeat(dx), side, inner, side));
+                                    rows.push(format!("{}{}{}{}", " ".repeat(left), ls, inner, rs));
                                 }
                                 let tail = if variant == "stub" { "--" } else { "" };
-                                rows.push(format!("{}{}{}{}{}", " ".repeat(dx), c[2], e, c[3], tail));
+                                rows.push(format!("{}{}{}{}{}", " ".repeat(left + inset), c[2], mk_edge(bottom), c[3], tail));
                                 let text = format!("{}{}\n", "\n".repeat(dy), rows.join("\n"));
                                 let cb = CellBuffer::from(text.as_str());
                                 let spans: Vec<Span> = Vec::<Span>::from(&cb);
+                                // the corner arcs the drawing consists of (before any endorsement)
+                                let mut arc_radii: Vec<f32> = vec![];
+                                for sp in spans.iter() {
+                                    for fs in FragmentBuffer::from(sp.clone()).merge_fragment_spans() {
+                                        if let Some(a) = fs.fragment.as_arc() {
+                                            arc_radii.push(a.radius);
+                                        }
+                                    }
+                                }
                                 let mut rects = vec![];
                                 let mut others = 0;
                                 for sp in spans {
@@ -526,29 +557,26 @@ pub(crate) mod b {
                                     }
                                     others += en.rejects.iter().filter(|s| !s.is_empty()).count();
                                 }
-                                let (x0, y0) = (dx as f32 + 0.5, dy as f32 * 2.0 + 1.0);
-                                let (x1, y1) = ((dx + w + 1) as f32 + 0.5, (dy + h + 1) as f32 * 2.0 + 1.0);
+                                let (x0, y0) = (left as f32 + 0.5, dy as f32 * 2.0 + 1.0);
+                                let (x1, y1) = (right as f32 + 0.5, (dy + h + 1) as f32 * 2.0 + 1.0);
+                                let any_dashed = ((top == '~' || bottom == '~') && right - left - 1 - 2 * inset > 0) || variant.starts_with("dashed");
                                 let ok = if variant == "stub" {
-                                    // the outline continues into a stub: it is not a closed box of its own
                                     rects.is_empty()
                                 } else {
                                     rects.len() == 1
                                         && rects[0].start.x == x0 && rects[0].start.y == y0 && rects[0].end.x == x1 && rects[0].end.y == y1
                                         && !rects[0].is_filled
-                                        && rects[0].is_broken == (edge == '~' && w > 0 || variant.starts_with("dashed"))
-                                        && (style == "sharp") == rects[0].radius.is_none()
+                                        && rects[0].is_broken == any_dashed
+                                        && if style == "sharp" {
+                                            rects[0].radius.is_none() && arc_radii.is_empty()
+                                        } else {
+                                            arc_radii.len() == 4 && arc_radii.iter().all(|r| Some(*r) == rects[0].radius) && arc_radii[0] > 0.0
+                                        }
                                         && others == if variant == "text" { 1 } else { 0 }
                                 };
-                                if let (true, Some(r)) = (ok && variant != "stub", rects.first().and_then(|r| r.radius)) {
-                                    if r <= 0.0 || radius_seen.map_or(false, |s| s != r) {
-                                        println!("BOUNDED-WITNESS corner radius {} differs from {:?} for box {}x{}", r, radius_seen, w, h);
-                                        panic!("rounded boxes share one corner radius");
-                                    }
-                                    radius_seen = Some(r);
-                                }
                                 if !ok {
-                                    println!("BOUNDED-WITNESS box style={} edge={:?} w={} h={} offset=({},{}) variant={}: rects {:?}, {} other fragments\n{}",
-                                        style, edge, w, h, dx, dy, variant, rects, others, text);
+                                    println!("BOUNDED-WITNESS box style={} edges={:?}/{:?} w={} h={} offset=({},{}) variant={}: rects {:?}, corner arc radii {:?}, {} other fragments\n{}",
+                                        style, top, bottom, w, h, dx, dy, variant, rects, arc_radii, others, text);
                                     panic!("a drawn box is exactly one matching rect");
                                 }
                                 n += 1;
